@@ -118,7 +118,12 @@ TLoopEv ==
 TMonEv ==
   \/ IsEv("mon", "sub.pause.send") /\ mpc \in {"m.psend", "m.rpsend"} /\ Confirm("mon") /\ UNCHANGED obs
   \/ IsEv("mon", "sub.pause.sent") /\ mpc \in {"m.psent", "m.rpsent"} /\ Confirm("mon") /\ UNCHANGED obs
-  \/ IsEv("mon", "mon.action") /\ mpc = "m.act" /\ action = E.action /\ Confirm("mon") /\ UNCHANGED obs
+  \/ /\ IsEv("mon", "mon.action") /\ mpc = "m.act" /\ action = E.action /\ Confirm("mon")
+     \* after transferSubscriptions every subscription is re-created (the gopcua server does not transfer);
+     \* the server numbers the new ones and their notifications from 1 again
+     /\ IF E.action = "transferSubscriptions" THEN mustAck' = {} /\ acked' = {} /\ carry' = {}
+                                             ELSE UNCHANGED <<mustAck, acked, carry>>
+     /\ UNCHANGED <<lastState, closedObs>>
   \/ IsEv("mon", "mon.done") /\ mpc = "m.done" /\ activeSubs = E.id /\ Confirm("mon") /\ UNCHANGED obs
   \/ IsEv("mon", "sub.resume.send") /\ mpc = "m.rsend" /\ Confirm("mon") /\ UNCHANGED obs
   \* a state report of the monitor goroutine: the model is in that state
